@@ -36,5 +36,9 @@ def run(P, R, L):
     R.clause("PAIR-5", "older versions of a key that a snapshot needs are registered with the table's filter like any other entry (Table::get consults the filter)")
     from .c14 import pair5
     pair5(P, R, L)
+    R.clause("SRC-1", "the client iterator merges every source: mutable memtable, immutable memtable (when present), one iterator per level-0 file and per non-empty deeper level")
+    K.src1_iterator_sources(P, R, L)
+    R.clause("SRC-2", "Version::get consults level-0 files newest first and every deeper level in ascending order")
+    K.src2_lookup_candidates(P, R, L)
     R.not_decided += ["that get and iteration agree for every history", "that the kept entries are the right ones for every snapshot set "
                       "(the guard shape is necessary, not sufficient)"]
